@@ -126,14 +126,15 @@ func gossipChild(a gossipArg) (*syncSessResult, error) {
 		if len(b.Steps) > 1 {
 			plan["blocks-1"] = b.Steps[1].A
 		}
-		if ann == "push-bad-signature" || ann == "push-wrong-producer" {
+		if ann == "push-bad-signature" || ann == "push-wrong-producer" || ann == "push-orphans-then-valid" {
 			// a pushed momentum above the remote's announced height makes the node synchronise with the remote; this remote
 			// does not answer the synchronisation's requests, so the genuine momentum cannot arrive that way
 			for _, st := range []string{"hashes-1", "hashes-2", "search-1", "search-2", "blocks-1"} {
 				plan[st] = "silent"
 			}
 		}
-		sr, err := newSyncRemote(ws, src, plan, r, h) // announces the node's own height: no synchronisation is started
+		remoteKey := newKey(r)
+		sr, err := newSyncRemoteAs(ws, src, plan, r, h, remoteKey) // announces the node's own height: no synchronisation is started
 		if err != nil {
 			mis("node-does-not-accept-a-remote", "%v", err)
 			break
@@ -151,6 +152,28 @@ func gossipChild(a gossipArg) (*syncSessResult, error) {
 			sr.send(7, M)
 		case "push-known":
 			sr.send(7, wire(h-3))
+		case "push-orphans-then-valid":
+			for k := 0; k < 64; k++ {
+				o := wire(h + 1)
+				o.Momentum.PreviousHash = types.NewHash([]byte(fmt.Sprint("no such predecessor", i, k, r.Int())))
+				o.Momentum.Hash = o.Momentum.ComputeHash()
+				sr.send(7, o)
+			}
+			// a pushed momentum above the remote's announced height makes the node synchronise with it; this remote does not answer,
+			// the node gives the synchronisation up and drops it. The same remote (same key, same peer to the node) comes back
+			// and pushes the genuine momentum: it is taken - what could not be imported has not used up the remote's allowance
+			if !sr.ended(40 * time.Second) {
+				sr.close()
+				sr.ended(3 * time.Second)
+			}
+			time.Sleep(500 * time.Millisecond)
+			sr, err = newSyncRemoteAs(ws, src, plan, r, h, remoteKey)
+			if err != nil {
+				mis("node-does-not-accept-a-remote", "the remote that pushed orphans is not accepted again: %v", err)
+				return res, nil
+			}
+			time.Sleep(200 * time.Millisecond)
+			sr.send(7, M)
 		case "hash-valid":
 			sr.send(1, []types.Hash{M.Momentum.Hash})
 		case "hash-valid-twice":
@@ -307,8 +330,8 @@ func gossipCheck(run *core.Run) {
 func DebugGossip(seed int64, only string) string {
 	node.Quiet()
 	var bs []gossipBehaviour
-	for _, a := range []string{"push-valid", "push-bad-signature", "push-wrong-producer", "push-known", "hash-known"} {
-		bs = append(bs, gossipBehaviour{Steps: []gossipStep{{K: "announce", A: a, Has: a == "push-valid"}}})
+	for _, a := range []string{"push-valid", "push-bad-signature", "push-wrong-producer", "push-known", "hash-known", "push-orphans-then-valid"} {
+		bs = append(bs, gossipBehaviour{Steps: []gossipStep{{K: "announce", A: a, Has: a == "push-valid" || a == "push-orphans-then-valid"}}})
 	}
 	for _, a := range []string{"hash-valid", "hash-valid-twice", "hash-unknown", "hash-many"} {
 		for _, b := range []string{"correct", "unrequested", "tampered-signature", "garbage", "empty", "silent"} {
